@@ -195,6 +195,9 @@ class ChoiceRNG(object):
         self.max_norm_dev = max(self.max_norm_dev, abs(s - 1.0))
         if abs(s - 1.0) > 1e-6:
             raise ValueError("sum(pvals) = %r is not 1" % s)
+        if len(p) > 1 and float(p[:-1].sum()) > 1.0 + 1e-12:
+            # numpy.random.Generator.multinomial rejects this input with exactly this error
+            raise ValueError("sum(pvals[:-1]) > 1.0")
         p = p / s
         n = int(n)
         counts = np.zeros(len(p), dtype=np.int64)
